@@ -5,6 +5,17 @@ import json, glob, os, re, subprocess
 ROOT = os.path.dirname(os.path.dirname(os.path.abspath(__file__)))
 def esc(s): return str(s).replace("|", "\\|").replace("\n", " ")
 out = []
+out.append("### 15.0 As built: one line per property (generated from meta/ and the last evidence files)\n")
+out.append("| id | model files | property theorems | statements in cone | cases judged (quick) | quick wall s | translators | level |\n|---|---|---|---|---|---|---|---|")
+for f in sorted(glob.glob(os.path.join(ROOT, "meta", "C*.json"))):
+    m = json.load(open(f)); pid = m["id"]
+    ev = {}
+    ep = os.path.join(ROOT, "evidence", pid + ".json")
+    if os.path.exists(ep): ev = json.load(open(ep))
+    cov = ev.get("coverage", {})
+    out.append("| %s | %s | %d | %s | %s | %s | %s | %s |" % (pid, esc(", ".join(x.replace("Model/","").replace("Base/","Base/") for x in m.get("models", []))[:80]),
+        len(cov.get("theorems", [])), cov.get("obligations", "?"), cov.get("programs", "?"), ev.get("wall_s", "?"), ",".join(m.get("translators", [])) or "–", m.get("level", "proof")))
+out.append("")
 out.append("### 15.1 Findings (genuine defects of minekube/gate found by the models and reproduced on the real code)\n")
 out.append("`known_findings.jsonl` is the authoritative list; `fixed` entries name the `fix:` commit in /repo and suppress nothing.\n")
 out.append("| id | status | commit | what fails |\n|---|---|---|---|")
